@@ -79,6 +79,12 @@ CHECKS["C19"] = ("typestate / partition analysis of the closures of Function.the
     "with outputs in order, the arity guards, that Diagram.__call__ is the functor into Functions on the boxes' own functions, and that SWAP / COPY / DISCARD and Swap(l, r) / Copy(n) / Discard(n) realise the block "
     "permutation / duplication / deletion for all widths up to the bound (quick 3, thorough 5). User functions returning a tuple as one value and widths above the bound are not decided.",
     TB, "DESIGN.md §4 C19")
+CHECKS["C20"] = ("case analysis of make_space / add_box with abscissae as linear forms over the reals (identities between guards, pads, limits and spreads), slice-partition typing of the row splice, "
+    "height ordering along each kind of edge, cross-site agreement of node keys, override/signature check of the back-ends, None-flow and writer/reader agreement of diagramize / nx2diagram",
+    "Decides the census of nodes and edges of diagram2nx, the splice of the row of open wires, that every shift translates a closed half-plane of all nodes by exactly the tested overlap, the formulas for half width, x_pos, "
+    "the centred unit-spaced cod wires with margin >= 1, verticality of dom / output nodes, strictly decreasing heights, consistent node keys at all 25 construction sites, that both back-ends override every primitive, and the "
+    "diagramize / nx2diagram agreement (offset normalisation, whiskering, splice). The rendered output of matplotlib / TikZ, inner wires of bubbles and non-planar uses of diagramize are not decided.",
+    TB, "DESIGN.md §4 C20")
 NOT_YET = "check not built yet in this round (static rules designed in DESIGN.md §4; will be claimed when the rule module lands)"
 NOT_APPLICABLE = {("C%02d" % i): NOT_YET for i in range(1, 21) if ("C%02d" % i) not in CHECKS}
 NOTES = ("All checks are static analyses of /repo/discopy's source (python -m sa.check <id>); exit 0 / 1 (VIOLATION) / 2 (ANALYSIS-ERROR). "
